@@ -370,6 +370,8 @@ def scratch_dir(tag):
 def run_property(prop, tier):
     import shutil
     t0 = time.time()
+    if os.environ.get('NV_SCRATCH'):
+        os.makedirs(os.environ['NV_SCRATCH'], exist_ok=True)
     mod = load_prop(prop)
     seed = verif_seed()
     plan = mod.plan(tier)
@@ -600,6 +602,8 @@ def _kill_group(p):
 
 
 def run_replay(path):
+    if os.environ.get('NV_SCRATCH'):
+        os.makedirs(os.environ['NV_SCRATCH'], exist_ok=True)
     with open(path) as f:
         rec = json.load(f)
     prop = rec['property']
